@@ -5,9 +5,9 @@ import gen as G
 
 MODEL_TARGETS = ["model/CanonicalForm.vo", "model/Rabin.vo", "spec/CrcSpec.vo"]
 COQ_TARGETS = ["props/C08.vo"]
-THEOREMS = [("C08", ["C08_table", "C08_step", "C08_rabin", "C08_rabin_bitwise", "C08_pieces", "C08_finish",
+THEOREMS = [("C08", ["C08_parsed", "C08_respell_regenerated", "C08_table", "C08_step", "C08_rabin", "C08_rabin_bitwise", "C08_pieces", "C08_finish",
                      "C08_le64_inj", "C08_fingerprint", "C08_null_vector"])]
-PROOF_FILES = ["proofs/RabinProofs.v", "proofs/CanonicalFormProofs.v", "props/C08.v"]
+PROOF_FILES = ["proofs/RabinProofs.v", "proofs/CanonicalFormProofs.v", "proofs/ParseResolveProofs.v", "proofs/ParseCf.v", "proofs/ParseLayout.v", "proofs/ParseBridge.v", "proofs/SchemaJsonProofs.v", "props/C08.v"]
 TRUSTED_BASE = [
     "Coq 8.16.1 kernel (coqc, vm_compute for the 256-entry table sweep); no native_compute",
     "translators/gen_rabin.py (EMPTY64, FP_TABLE, the per-byte step expression, Default, finish byte order are regenerated from rabin.rs on every run)",
@@ -62,12 +62,55 @@ def run(ctx):
         distinct.add(t)
         if len(samples) < 5:
             samples.append({"canonical_form": C.unhex(t).decode("utf-8", "replace")[:200], "fingerprint": fp_impl})
+    # 3. documents: the fingerprint must be the specification checksum of the SPECIFICATION's canonical form of the document
+    #    (PcfSpec.pcf, extracted; computed from the JSON AST, independent of the crate's traversal)
+    import docgen as D
+    docs = []
+    while len(docs) < n // 2:
+        g = G.SchemaGen(rng, max_nodes=rng.choice([2, 5, 10, 18]), max_depth=rng.choice([2, 4, 6]),
+                        namespaces=rng.choice([("",), ("ns", "ns.sub", "other"), ("", "ns", "ns.sub")]), ref_prob=0.3)
+        nodes = g.build()
+        try:
+            d1 = D.DocGen(rng, nodes, forward=0.0).gen(0, None)
+            d2 = D.DocGen(rng, nodes, forward=0.0).gen(0, None)      # another spelling of the same schema
+        except D.Unspellable:
+            continue
+        docs.append((nodes, d1, d2))
+    t1 = [D.to_text(d[1], rng) for d in docs]
+    t2 = [D.to_text(d[2], rng) for d in docs]
+    i1 = C.run_parallel(C.AVRODRIVE, ["parse " + C.hx(t) for t in t1])
+    i2 = C.run_parallel(C.AVRODRIVE, ["parse " + C.hx(t) for t in t2])
+    sp = C.run_parallel(C.AVROMODEL, ["parse " + D.to_sx(d[1]) for d in docs])
+    want_lines, want_idx = [], []
+    for k, r in enumerate(sp):
+        p = C.parse_sx(r)[0]
+        if p[0] == "ok":
+            want_lines.append("rabin " + p[5]); want_idx.append(k)
+    want = dict(zip(want_idx, C.run_parallel(C.AVROMODEL, want_lines)))
+    for k, (d, a, b) in enumerate(zip(docs, i1, i2)):
+        pa, pb = C.parse_sx(a)[0], C.parse_sx(b)[0]
+        line = "parse " + C.hx(t1[k])
+        if k not in want or pa[0] != "ok":
+            continue
+        exp = C.parse_sx(want[k])[0][2]
+        spec_pcf = C.parse_sx(sp[k])[0][5]
+        distinct.add(spec_pcf)
+        if pa[3] != exp:
+            violations.append({"impl_case": line, "what": "fingerprint is not the CRC-64-AVRO of the specification's Parsing Canonical Form of the document",
+                               "document": t1[k][:500], "fingerprint": pa[3], "expected": exp,
+                               "spec_canonical_form": C.unhex(spec_pcf).decode("utf-8", "replace")[:400],
+                               "crate_canonical_form": C.unhex(pa[2]).decode("utf-8", "replace")[:400]})
+        if pb[0] == "ok" and pb[3] != pa[3]:
+            violations.append({"impl_case": "parse " + C.hx(t2[k]), "what": "two JSON spellings of the same schema have different fingerprints",
+                               "a": t1[k][:300], "b": t2[k][:300]})
     return {
-        "evaluations": len(lines),
+        "evaluations": len(lines) + 2 * len(docs),
         "distinct_nontrivial": len(distinct),
         "rule": "node graphs (arbitrary UTF-8 names in fixed nodes; random valid schemas with sharing and logical types); "
                 "distinct = distinct canonical form texts accepted by the crate; each compared (a) fingerprint and text "
-                "model vs crate, (b) crate fingerprint vs extracted specification checksum of the crate's text",
+                "model vs crate, (b) crate fingerprint vs extracted specification checksum of the crate's text; (c) generated documents in two "
+                "random spellings each: fingerprint = extracted CRC of the extracted PcfSpec.pcf of the document (independent of the crate's "
+                "traversal), equal for both spellings",
         "samples": samples,
         "violations": violations,
         "model_diffs": diffs,
